@@ -234,6 +234,16 @@ func (w *World) tamperParams(m *MsgSpec, sp *SPNode, s *Sent, form url.Values, b
 		case "b64_flip":
 			form.Set("SAMLRequest", flipB64Char(form.Get("SAMLRequest"), tp.A))
 			w.fire("tamper_b64_flip")
+		case "double_encode":
+			// the value is percent-encoded twice on the wire: after the one decoding a form parser applies it still carries escapes
+			v := form.Get(tp.S)
+			if tp.S == "SAMLEncoding" && v == "" {
+				v = EncDeflate
+			}
+			if e := url.QueryEscape(v); e != v {
+				form.Set(tp.S, e)
+				w.fire("tamper_double_encode")
+			}
 		case "drop_param":
 			form.Del(tp.S)
 			w.fire("tamper_drop_param")
@@ -356,6 +366,22 @@ func (w *World) tamperRawQuery(m *MsgSpec, sp *SPNode, s *Sent, q string) string
 				q = sr
 			}
 			continue
+		case "double_encode":
+			found := false
+			for i := range ps {
+				if ps[i].Key == tp.S {
+					found = true
+					dec, _ := pctDecode(ps[i].RawVal)
+					if e := url.QueryEscape(url.QueryEscape(dec)); e != url.QueryEscape(dec) {
+						ps[i].RawVal = e
+						w.fire("tamper_double_encode")
+					}
+				}
+			}
+			if !found && tp.S == "SAMLEncoding" {
+				ps = append(ps, rawParam{"SAMLEncoding", url.QueryEscape(url.QueryEscape(EncDeflate))})
+				w.fire("tamper_double_encode")
+			}
 		case "encoding":
 			var out []rawParam
 			for _, p := range ps {
